@@ -1,4 +1,13 @@
 //! C02 Macro parameters bind and substitute exactly as in TeX.
+//!
+//! Sub-checks:
+//! * `macro_call` — random (specification, argument tuple) pairs rendered as a one-line program in one of
+//!   several call shapes (see [`MacroCase`]), compared token for token with a transcription of TeX's
+//!   `macro_call` (tex.web §389–399);
+//! * `texbook` — fixed vectors (TeXbook pp. 203–204, exercises 20.3/20.5/20.6, the repository's TeX-verified
+//!   `def.rs` goldens transliterated to control symbols, DESIGN A.2): the hand-written expected token list must
+//!   be produced by BOTH the reference model and the VM, so the model is anchored to TeX and not only to the
+//!   implementation it is compared with.
 
 use crate::engine::*;
 use crate::texvm::{self, OutTok, VmOptions};
@@ -14,8 +23,12 @@ pub enum Tok {
     Cs(char),
     Open,
     Close,
-    /// a category-6 `#` token (only arises from `##` in a replacement text)
+    /// a category-6 `#` token (from `##` in a replacement text, or a `#` typed in a call-time argument)
     Hash,
+    /// a character of category 3, 4, 7 or 8 (`$`, `&`, `_`; `^` is not used: `^^` is lexer notation)
+    C(char, u8),
+    /// active character (`~`)
+    Active(char),
 }
 
 #[derive(Clone, Debug, Serialize, Deserialize)]
@@ -44,17 +57,37 @@ pub struct MacroCase {
     pub args: Vec<Vec<ATree>>,
     pub tail: Vec<ATree>,
     pub gdef: bool,
-    /// Some(f): the call is issued from the body of a forwarding macro \\w#1#2 whose two arguments are
-    /// the stream split at a depth-0 position (fraction f); the halves are lexed separately, so space
-    /// tokens can be adjacent at the junction (impossible in directly typed source).
+    /// Some((f, pad)): the call is issued from the body of a forwarding macro; the stream is split at a
+    /// depth-0 position (fraction f) and the halves are lexed separately, so space tokens can be adjacent
+    /// at the junction (impossible in directly typed source). `wrap_kind` selects the forwarding shape.
     #[serde(default)]
     pub wrap_split: Option<(u16, bool)>,
+    /// 0: `\w#1#2` — both halves are arguments of `\w`, every token of the call comes from the expansion stack;
+    /// 1: `\w#1` — the first half comes from the expansion stack, the second half is still unread source
+    ///    text that the call itself pulls through the lexer;
+    /// 2: as 0 but the two halves are lexed under different category codes of `,` (letter / other), and the
+    ///    definition under `regime & 1`; `.` and `b` are rendered as `,` too so commas are frequent.
+    #[serde(default)]
+    pub wrap_kind: u8,
+    /// the macro under test is dispatched by the main loop (`stream::next_expanded`): its replacement text
+    /// starts with the capture command and the call is written without `\expandafter`
+    #[serde(default)]
+    pub main_loop: bool,
+    /// the call (same stream) is issued twice in the same VM
+    #[serde(default)]
+    pub twice: bool,
+    /// wrap_kind 2 only: bit 0 = `,` is a letter while `\*` is defined, bit 1 = `,` is a letter in the first half
+    #[serde(default)]
+    pub regime: u8,
+    /// the macro under test is the active character `~` instead of the control symbol `\*`
+    #[serde(default)]
+    pub active_name: bool,
 }
 
 fn flatten(ts: &[ATree], out: &mut Vec<Tok>) {
     for t in ts {
         match t {
-            ATree::T(Tok::Open) | ATree::T(Tok::Close) | ATree::T(Tok::Hash) => out.push(Tok::O('.')),
+            ATree::T(Tok::Open) | ATree::T(Tok::Close) => out.push(Tok::O('.')),
             ATree::T(t) => out.push(*t),
             ATree::G(inner) => {
                 out.push(Tok::Open);
@@ -123,9 +156,11 @@ fn collapse_repl(v: Vec<FlatR>) -> Vec<FlatR> {
     out
 }
 
-fn render_tok(t: &Tok, s: &mut String) {
+/// `in_def`: inside a `\def` a category-6 token of the replacement text is written `##`; in a call-time
+/// argument it is a plain `#`.
+fn render_tok(t: &Tok, in_def: bool, s: &mut String) {
     match t {
-        Tok::L(c) | Tok::O(c) => s.push(*c),
+        Tok::L(c) | Tok::O(c) | Tok::C(c, _) | Tok::Active(c) => s.push(*c),
         Tok::Sp => s.push(' '),
         Tok::Cs(c) => {
             s.push('\\');
@@ -133,16 +168,29 @@ fn render_tok(t: &Tok, s: &mut String) {
         }
         Tok::Open => s.push('{'),
         Tok::Close => s.push('}'),
-        Tok::Hash => s.push_str("##"),
+        Tok::Hash => s.push_str(if in_def { "##" } else { "#" }),
+    }
+}
+
+fn render_toks(ts: &[Tok], in_def: bool, s: &mut String) {
+    for t in ts {
+        render_tok(t, in_def, s);
     }
 }
 
 pub struct Built {
     pub text: String,
+    /// prefix incl. the `{` of a `#{` without parameters
     pub prefix: Vec<Tok>,
+    /// parameters incl. the `{` of `#{` as last delimiter token
     pub params: Vec<Option<Vec<Tok>>>,
     pub repl: Vec<FlatRPub>,
     pub stream: Vec<Tok>,
+    /// number of leading stream tokens that come from the expansion stack while the rest is lexed by the
+    /// call itself (wrap_kind 1); None otherwise
+    pub stack_len: Option<usize>,
+    /// the definition has a digit directly after `#n` (delimiter), after `#n` in the replacement text, or after `##`
+    pub digit_after_hash: bool,
 }
 
 #[derive(Clone, Debug)]
@@ -151,42 +199,57 @@ pub enum FlatRPub {
     P(usize),
 }
 
-pub fn build(c: &MacroCase) -> Built {
-    let prefix = clean_delim(&c.prefix);
-    let nparams = c.params.len().min(9);
-    let mut params: Vec<Option<Vec<Tok>>> = c.params.iter().take(9).map(|p| p.as_ref().map(|d| clean_delim(d)).filter(|d| !d.is_empty())).collect();
-    // the parameter text as TeX will see it
-    let mut text = String::from(if c.gdef { "\\gdef\\*" } else { "\\def\\*" });
-    for t in &prefix {
-        render_tok(t, &mut text);
-    }
+fn is_digit(t: &Tok) -> bool {
+    matches!(t, Tok::O(c) if c.is_ascii_digit())
+}
+
+/// Definition text `\def\*<ptext>{<body_head><repl>}` and the effective specification (with the `#{` brace).
+fn definition(
+    name: &str,
+    gdef: bool,
+    prefix: &[Tok],
+    params: &[Option<Vec<Tok>>],
+    brace_delim: bool,
+    repl: &[FlatRPub],
+    body_head: &str,
+    text: &mut String,
+) -> (Vec<Tok>, Vec<Option<Vec<Tok>>>, bool) {
+    let mut digit_after_hash = false;
+    text.push_str(if gdef { "\\gdef" } else { "\\def" });
+    text.push_str(name);
+    render_toks(prefix, true, text);
     for (i, p) in params.iter().enumerate() {
         text.push('#');
         text.push_str(&format!("{}", i + 1));
         if let Some(d) = p {
-            for t in d {
-                render_tok(t, &mut text);
-            }
+            digit_after_hash |= d.first().map(is_digit).unwrap_or(false);
+            render_toks(d, true, text);
         }
     }
-    if c.brace_delim {
+    if brace_delim {
         text.push('#');
     }
     text.push('{');
-    let mut flat = vec![];
-    flatten_repl(&c.repl, nparams, &mut flat);
-    let flat = collapse_repl(flat);
-    for r in &flat {
+    text.push_str(body_head);
+    let mut prev_hashish = false;
+    for r in repl {
         match r {
-            FlatR::T(t) => render_tok(t, &mut text),
-            FlatR::P(i) => text.push_str(&format!("#{}", i + 1)),
+            FlatRPub::T(t) => {
+                digit_after_hash |= prev_hashish && is_digit(t);
+                prev_hashish = *t == Tok::Hash;
+                render_tok(t, true, text);
+            }
+            FlatRPub::P(i) => {
+                prev_hashish = true;
+                text.push_str(&format!("#{}", i + 1));
+            }
         }
     }
     text.push('}');
-    // Effective specification including the `#{` brace.
-    let mut eff_prefix = prefix.clone();
-    if c.brace_delim {
-        match params.last_mut() {
+    let mut eff_prefix = prefix.to_vec();
+    let mut eff_params = params.to_vec();
+    if brace_delim {
+        match eff_params.last_mut() {
             None => eff_prefix.push(Tok::Open),
             Some(p) => match p {
                 None => *p = Some(vec![Tok::Open]),
@@ -194,15 +257,70 @@ pub fn build(c: &MacroCase) -> Built {
             },
         }
     }
-    // The stream after the call.
+    (eff_prefix, eff_params, digit_after_hash)
+}
+
+fn comma(letter: bool) -> Tok {
+    if letter {
+        Tok::L(',')
+    } else {
+        Tok::O(',')
+    }
+}
+
+/// Category-code regime of a region of the program: `None` = the default table (`,` is an other character;
+/// a stray letter-comma is normalised), `Some(letter)` = regime mode (`.`, `,` and `b` all become a comma of the
+/// region's category, so commas are frequent).
+fn regime_map(v: &[Tok], regime: Option<bool>) -> Vec<Tok> {
+    v.iter().map(|t| match (t, regime) {
+        (Tok::L(','), None) => Tok::O(','),
+        (Tok::L(',') | Tok::O(',') | Tok::O('.') | Tok::L('b'), Some(letter)) => comma(letter),
+        (t, _) => *t,
+    }).collect()
+}
+
+fn catcode_comma(letter: bool, text: &mut String) {
+    text.push_str(if letter { "\\catcode`\\,=11 " } else { "\\catcode`\\,=12 " });
+}
+
+pub fn build(c: &MacroCase) -> Built {
+    let regime_mode = c.wrap_split.is_some() && c.wrap_kind == 2;
+    let def_regime = if regime_mode { Some(c.regime & 1 != 0) } else { None };
+    let s1_regime = if regime_mode { Some(c.regime & 2 != 0) } else { None };
+    let s2_regime = if regime_mode { Some(c.regime & 2 == 0) } else { None };
+    let raw_prefix = clean_delim(&c.prefix);
+    let nparams = c.params.len().min(9);
+    let raw_params: Vec<Option<Vec<Tok>>> = c.params.iter().take(9).map(|p| p.as_ref().map(|d| clean_delim(d)).filter(|d| !d.is_empty())).collect();
+    let prefix = regime_map(&raw_prefix, def_regime);
+    let params: Vec<Option<Vec<Tok>>> = raw_params.iter().map(|p| p.as_ref().map(|d| regime_map(d, def_regime))).collect();
+    let mut flat = vec![];
+    flatten_repl(&c.repl, nparams, &mut flat);
+    let repl: Vec<FlatRPub> = collapse_repl(flat).into_iter().map(|r| match r {
+        FlatR::T(t) => FlatRPub::T(regime_map(&[t], def_regime)[0]),
+        FlatR::P(i) => FlatRPub::P(i),
+    }).collect();
+
+    let name = if c.active_name { "~" } else { "\\*" };
+    let mut text = String::new();
+    if c.main_loop {
+        text.push_str("\\let\\+\\vpcapture");
+    }
+    if let Some(l) = def_regime {
+        catcode_comma(l, &mut text);
+    }
+    let (eff_prefix, eff_params, digit_after_hash) =
+        definition(name, c.gdef, &prefix, &params, c.brace_delim, &repl, if c.main_loop { "\\+" } else { "" }, &mut text);
+    let head = &format!("{}{}", if c.main_loop { "" } else { "\\expandafter\\vpcapture" }, name);
+
+    // The stream after the call (before the regions' category codes are applied).
     let mut stream: Vec<Tok> = vec![];
-    stream.extend(prefix.iter().copied());
-    for (i, p) in c.params.iter().take(9).enumerate() {
+    stream.extend(raw_prefix.iter().copied());
+    for (i, p) in raw_params.iter().enumerate() {
         let empty = vec![];
         let a = c.args.get(i).unwrap_or(&empty);
         flatten(a, &mut stream);
         if let Some(d) = p {
-            stream.extend(clean_delim(d));
+            stream.extend(d.iter().copied());
         }
     }
     if c.brace_delim {
@@ -212,14 +330,16 @@ pub fn build(c: &MacroCase) -> Built {
     if c.brace_delim {
         stream.push(Tok::Close);
     }
+    let reps = if c.twice { 2 } else { 1 };
+    let mut stack_len = None;
     let stream = match c.wrap_split {
         None => {
-            let stream = collapse_spaces(&stream);
-            text.push_str("\\expandafter\\vpcapture\\*");
-            for t in &stream {
-                render_tok(t, &mut text);
+            let stream = regime_map(&collapse_spaces(&stream), None);
+            for _ in 0..reps {
+                text.push_str(head);
+                render_toks(&stream, false, &mut text);
+                text.push_str("\\vpstop");
             }
-            text.push_str("\\vpstop%");
             stream
         }
         Some((f, pad)) => {
@@ -248,25 +368,57 @@ pub fn build(c: &MacroCase) -> Built {
                     s2.insert(0, Tok::Sp);
                 }
             }
-            text.push_str("\\def\\w#1#2{\\expandafter\\vpcapture\\*#1#2\\vpstop}\\w{");
-            for t in &s1 {
-                render_tok(t, &mut text);
+            let s1 = regime_map(&s1, s1_regime);
+            let s2 = regime_map(&s2, s2_regime);
+            match c.wrap_kind {
+                1 => {
+                    text.push_str("\\def\\w#1{");
+                    text.push_str(head);
+                    text.push_str("#1}");
+                    for _ in 0..reps {
+                        text.push_str("\\w{");
+                        render_toks(&s1, false, &mut text);
+                        text.push('}');
+                        render_toks(&s2, false, &mut text);
+                        text.push_str("\\vpstop");
+                    }
+                    stack_len = Some(s1.len());
+                }
+                2 => {
+                    text.push_str("\\def\\u#1{");
+                    catcode_comma(s2_regime.unwrap(), &mut text);
+                    text.push_str("\\v{#1}}\\def\\v#1#2{");
+                    text.push_str(head);
+                    text.push_str("#1#2\\vpstop}");
+                    for _ in 0..reps {
+                        catcode_comma(s1_regime.unwrap(), &mut text);
+                        text.push_str("\\u{");
+                        render_toks(&s1, false, &mut text);
+                        text.push_str("}{");
+                        render_toks(&s2, false, &mut text);
+                        text.push('}');
+                    }
+                }
+                _ => {
+                    text.push_str("\\def\\w#1#2{");
+                    text.push_str(head);
+                    text.push_str("#1#2\\vpstop}");
+                    for _ in 0..reps {
+                        text.push_str("\\w{");
+                        render_toks(&s1, false, &mut text);
+                        text.push_str("}{");
+                        render_toks(&s2, false, &mut text);
+                        text.push('}');
+                    }
+                }
             }
-            text.push_str("}{");
-            for t in &s2 {
-                render_tok(t, &mut text);
-            }
-            text.push_str("}%");
             let mut joined = s1;
             joined.extend(s2);
             joined
         }
     };
-    let repl = flat.into_iter().map(|r| match r {
-        FlatR::T(t) => FlatRPub::T(t),
-        FlatR::P(i) => FlatRPub::P(i),
-    }).collect();
-    Built { text, prefix: eff_prefix, params, repl, stream }
+    text.push('%');
+    Built { text, prefix: eff_prefix, params: eff_params, repl, stream, stack_len, digit_after_hash }
 }
 
 #[derive(Debug, PartialEq, Eq)]
@@ -277,23 +429,30 @@ pub enum ModelErr {
     EndOfInput,
 }
 
-#[derive(Default, Clone, Copy)]
-pub struct Deviations {
-    /// strip braces whenever the argument starts with `{` and ends with `}` (D3)
-    pub strip_when_first_and_last_are_braces: bool,
-}
-
+#[derive(Default)]
 pub struct ModelOut {
     pub tokens: Vec<Tok>,
     pub args: Vec<Vec<Tok>>,
+    /// number of stream tokens consumed by the call (incl. the brace of `#{`, which is put back)
+    pub consumed: usize,
     pub partial_delim_in_arg: bool,
+    /// a rejected partial match of two or more delimiter tokens at depth 0
+    pub long_partial: bool,
+    /// the complete delimiter occurs inside a group of the argument it delimits
+    pub delim_inside_group: bool,
     pub arg_has_group_delimited: bool,
     pub stripped: bool,
     pub multi_group_delimited: bool,
+    pub empty_delimited: bool,
+    pub space_skipped_undelimited: bool,
+}
+
+fn occurs(hay: &[Tok], needle: &[Tok]) -> bool {
+    !needle.is_empty() && hay.len() >= needle.len() && hay.windows(needle.len()).any(|w| w == needle)
 }
 
 /// TeX's macro_call (§389–399) on token lists.
-pub fn macro_call(b: &Built, dev: Deviations) -> Result<ModelOut, ModelErr> {
+pub fn macro_call(b: &Built) -> Result<ModelOut, ModelErr> {
     let s = &b.stream;
     let mut p = 0usize;
     for t in &b.prefix {
@@ -305,17 +464,16 @@ pub fn macro_call(b: &Built, dev: Deviations) -> Result<ModelOut, ModelErr> {
         }
         p += 1;
     }
+    let mut m = ModelOut::default();
     let mut args: Vec<Vec<Tok>> = vec![];
-    let mut partial = false;
-    let mut has_group = false;
-    let mut stripped = false;
-    let mut multi_group = false;
     let mut trailing_open = false;
     for (pi, param) in b.params.iter().enumerate() {
         match param {
             None => {
+                // §393: an undelimited parameter skips blank spaces (§392 `if cur_tok=space_token` ... `goto continue`)
                 while p < s.len() && s[p] == Tok::Sp {
                     p += 1;
+                    m.space_skipped_undelimited = true;
                 }
                 if p >= s.len() {
                     return Err(ModelErr::EndOfInput);
@@ -347,11 +505,17 @@ pub fn macro_call(b: &Built, dev: Deviations) -> Result<ModelOut, ModelErr> {
                     }
                     // partial occurrence of the delimiter's first token(s)
                     if s[p] == d[0] {
-                        partial = true;
+                        m.partial_delim_in_arg = true;
+                        if d.len() >= 2 && p + 1 < s.len() && s[p + 1] == d[1] {
+                            m.long_partial = true;
+                        }
                     }
                     match s[p] {
                         Tok::Open => {
                             let end = match_group(s, p).ok_or(ModelErr::NoMatch)?;
+                            if d.last() != Some(&Tok::Open) && occurs(&s[p..end], d) {
+                                m.delim_inside_group = true;
+                            }
                             p = end + 1;
                             units += 1;
                             groups += 1;
@@ -367,19 +531,18 @@ pub fn macro_call(b: &Built, dev: Deviations) -> Result<ModelOut, ModelErr> {
                 }
                 let mut arg = s[start..p].to_vec();
                 if groups > 0 {
-                    has_group = true;
+                    m.arg_has_group_delimited = true;
                 }
                 if groups >= 2 || (groups == 1 && units >= 2) {
-                    multi_group = true;
+                    m.multi_group_delimited = true;
                 }
-                let strip = if dev.strip_when_first_and_last_are_braces {
-                    arg.len() >= 2 && arg[0] == Tok::Open && arg[arg.len() - 1] == Tok::Close
-                } else {
-                    units == 1 && last_unit_group
-                };
-                if strip {
+                // §393: m=1 and the last token is a right brace
+                if units == 1 && last_unit_group {
                     arg = arg[1..arg.len() - 1].to_vec();
-                    stripped = true;
+                    m.stripped = true;
+                }
+                if units == 0 {
+                    m.empty_delimited = true;
                 }
                 args.push(arg);
                 p += d.len();
@@ -403,7 +566,10 @@ pub fn macro_call(b: &Built, dev: Deviations) -> Result<ModelOut, ModelErr> {
         out.push(Tok::Open);
     }
     out.extend(s[p..].iter().copied());
-    Ok(ModelOut { tokens: out, args, partial_delim_in_arg: partial, arg_has_group_delimited: has_group, stripped, multi_group_delimited: multi_group })
+    m.tokens = out;
+    m.args = args;
+    m.consumed = p;
+    Ok(m)
 }
 
 fn match_group(s: &[Tok], open: usize) -> Option<usize> {
@@ -423,6 +589,27 @@ fn match_group(s: &[Tok], open: usize) -> Option<usize> {
     None
 }
 
+fn max_depth(s: &[Tok]) -> i32 {
+    let mut depth = 0i32;
+    let mut mx = 0;
+    for t in s {
+        match t {
+            Tok::Open => {
+                depth += 1;
+                mx = mx.max(depth);
+            }
+            Tok::Close => depth -= 1,
+            _ => {}
+        }
+    }
+    mx
+}
+
+/// Length of the longest proper border of `d` (prefix that is also a suffix): > 0 means the delimiter overlaps itself.
+fn border(d: &[Tok]) -> usize {
+    (1..d.len()).rev().find(|k| d[..*k] == d[d.len() - *k..]).unwrap_or(0)
+}
+
 fn to_out(t: &Tok) -> OutTok {
     match t {
         Tok::L(c) => OutTok::Ch(*c, 11),
@@ -432,71 +619,192 @@ fn to_out(t: &Tok) -> OutTok {
         Tok::Open => OutTok::Ch('{', 1),
         Tok::Close => OutTok::Ch('}', 2),
         Tok::Hash => OutTok::Ch('#', 6),
+        Tok::C(c, cat) => OutTok::Ch(*c, *cat),
+        Tok::Active(c) => OutTok::Active(*c),
     }
 }
 
-fn tok_strategy() -> impl Strategy<Value = Tok> {
+type TokS = BoxedStrategy<Tok>;
+
+/// The full token alphabet (delimiters, prefixes, replacement literals, argument leaves).
+fn tok_strategy() -> TokS {
     prop_oneof![
-        3 => Just(Tok::L('a')),
-        2 => Just(Tok::L('b')),
-        2 => Just(Tok::O('.')),
-        1 => Just(Tok::O(',')),
-        2 => Just(Tok::Sp),
-        1 => Just(Tok::Cs('!')),
-        1 => Just(Tok::Cs(';')),
+        6 => Just(Tok::L('a')),
+        4 => Just(Tok::L('b')),
+        4 => Just(Tok::O('.')),
+        2 => Just(Tok::O(',')),
+        4 => Just(Tok::Sp),
+        2 => Just(Tok::Cs('!')),
+        2 => Just(Tok::Cs(';')),
+        2 => Just(Tok::O('1')),
+        2 => Just(Tok::O('2')),
+        1 => Just(Tok::Active('~')),
+        1 => prop_oneof![Just(Tok::C('$', 3)), Just(Tok::C('&', 4)), Just(Tok::C('_', 8))],
     ]
+    .boxed()
 }
 
-fn atree_strategy() -> impl Strategy<Value = ATree> {
-    let leaf = tok_strategy().prop_map(ATree::T);
-    leaf.prop_recursive(3, 12, 4, |inner| proptest::collection::vec(inner, 0..4).prop_map(ATree::G))
+/// Placeholders of the narrow alphabets; replaced by an arbitrary triple of tokens afterwards.
+const PH: [Tok; 3] = [Tok::L('a'), Tok::L('b'), Tok::O('.')];
+
+fn narrow_tok_strategy() -> TokS {
+    prop_oneof![4 => Just(PH[0]), 3 => Just(PH[1]), 1 => Just(PH[2])].boxed()
 }
 
-fn arg_strategy() -> impl Strategy<Value = Vec<ATree>> {
+fn atree_strategy(tok: TokS, hash: bool) -> BoxedStrategy<ATree> {
+    // a category-6 `#` typed in a call-time argument is an ordinary token for macro_call
+    let leaf = if hash {
+        prop_oneof![30 => tok, 1 => Just(Tok::Hash)].prop_map(ATree::T).boxed()
+    } else {
+        tok.prop_map(ATree::T).boxed()
+    };
+    leaf.prop_recursive(3, 12, 4, |inner| proptest::collection::vec(inner, 0..4).prop_map(ATree::G)).boxed()
+}
+
+fn arg_strategy(tok: TokS, hash: bool, runs: u32) -> BoxedStrategy<Vec<ATree>> {
+    let at = || atree_strategy(tok.clone(), hash);
+    // mostly depth-0 tokens with an occasional group: partial delimiter matches outside groups
+    let run_unit = prop_oneof![5 => tok.clone().prop_map(ATree::T), 1 => at()];
     prop_oneof![
+        runs => proptest::collection::vec(run_unit, 1..9),
         1 => Just(vec![]),
-        2 => tok_strategy().prop_map(|t| vec![ATree::T(t)]),
-        3 => proptest::collection::vec(atree_strategy(), 0..3).prop_map(|v| vec![ATree::G(v)]),
-        3 => (proptest::collection::vec(atree_strategy(), 0..3), proptest::collection::vec(atree_strategy(), 0..3)).prop_map(|(a, b)| vec![ATree::G(a), ATree::G(b)]),
-        2 => (proptest::collection::vec(atree_strategy(), 0..3), tok_strategy()).prop_map(|(a, t)| vec![ATree::G(a), ATree::T(t)]),
-        2 => (proptest::collection::vec(atree_strategy(), 0..3)).prop_map(|a| vec![ATree::T(Tok::Sp), ATree::G(a)]),
-        3 => proptest::collection::vec(atree_strategy(), 0..5),
+        2 => tok.clone().prop_map(|t| vec![ATree::T(t)]),
+        3 => proptest::collection::vec(at(), 0..3).prop_map(|v| vec![ATree::G(v)]),
+        3 => (proptest::collection::vec(at(), 0..3), proptest::collection::vec(at(), 0..3)).prop_map(|(a, b)| vec![ATree::G(a), ATree::G(b)]),
+        2 => (proptest::collection::vec(at(), 0..3), tok.clone()).prop_map(|(a, t)| vec![ATree::G(a), ATree::T(t)]),
+        2 => (proptest::collection::vec(at(), 0..3)).prop_map(|a| vec![ATree::T(Tok::Sp), ATree::G(a)]),
+        3 => proptest::collection::vec(at(), 0..5),
     ]
+    .boxed()
 }
 
-fn rtok_strategy() -> impl Strategy<Value = RTok> {
+fn rtok_strategy(tok: TokS) -> BoxedStrategy<RTok> {
     let leaf = prop_oneof![
-        4 => tok_strategy().prop_map(RTok::T),
+        4 => tok.prop_map(RTok::T),
         4 => (0u8..9).prop_map(RTok::P),
         1 => Just(RTok::HashHash),
     ];
-    leaf.prop_recursive(2, 8, 3, |inner| proptest::collection::vec(inner, 0..3).prop_map(RTok::G))
+    leaf.prop_recursive(2, 8, 3, |inner| proptest::collection::vec(inner, 0..3).prop_map(RTok::G)).boxed()
 }
 
-pub fn case_strategy() -> impl Strategy<Value = MacroCase> {
+/// (wrap_split, wrap_kind, main_loop, twice, regime, active_name)
+type Shape = (Option<(u16, bool)>, u8, bool, bool, u8, bool);
+
+fn shape_strategy() -> impl Strategy<Value = Shape> {
     (
-        proptest::collection::vec(tok_strategy(), 0..3),
-        proptest::collection::vec(prop_oneof![2 => Just(None), 3 => proptest::collection::vec(tok_strategy(), 1..4).prop_map(Some)], 0..10),
+        proptest::option::weighted(0.45, (any::<u16>(), any::<bool>())),
+        prop_oneof![3 => Just(0u8), 3 => Just(1u8), 2 => Just(2u8)],
+        proptest::bool::weighted(0.35),
         proptest::bool::weighted(0.15),
-        proptest::collection::vec(rtok_strategy(), 0..7),
-        proptest::collection::vec(arg_strategy(), 9),
-        proptest::collection::vec(atree_strategy(), 0..4),
-        proptest::bool::weighted(0.2),
-        proptest::option::weighted(0.3, (any::<u16>(), any::<bool>())),
+        0u8..4,
+        proptest::bool::weighted(0.1),
     )
-        .prop_map(|(prefix, mut params, brace_delim, repl, args, tail, gdef, wrap_split)| {
+}
+
+fn case_with(tok: TokS, narrow: bool) -> BoxedStrategy<MacroCase> {
+    let delim = if narrow {
+        prop_oneof![1 => proptest::collection::vec(tok.clone(), 1..3), 4 => proptest::collection::vec(tok.clone(), 3..8)].boxed()
+    } else {
+        prop_oneof![6 => proptest::collection::vec(tok.clone(), 1..4), 1 => proptest::collection::vec(tok.clone(), 4..8)].boxed()
+    };
+    let params = if narrow {
+        proptest::collection::vec(prop_oneof![1 => Just(None), 4 => delim.prop_map(Some)], 1..4).boxed()
+    } else {
+        proptest::collection::vec(prop_oneof![2 => Just(None), 3 => delim.prop_map(Some)], 0..10).boxed()
+    };
+    (
+        proptest::collection::vec(tok.clone(), 0..3),
+        params,
+        proptest::bool::weighted(0.15),
+        proptest::collection::vec(rtok_strategy(tok.clone()), 0..7),
+        proptest::collection::vec(arg_strategy(tok.clone(), !narrow, if narrow { 12 } else { 3 }), 9),
+        proptest::collection::vec(atree_strategy(tok.clone(), !narrow), 0..4),
+        proptest::bool::weighted(0.2),
+        shape_strategy(),
+    )
+        .prop_map(|(prefix, mut params, brace_delim, repl, args, tail, gdef, shape)| {
             // bias toward few parameters
             if params.len() > 3 && prefix.len() % 2 == 0 {
                 params.truncate(3);
             }
-            MacroCase { prefix, params, brace_delim, repl, args, tail, gdef, wrap_split }
+            let (wrap_split, wrap_kind, main_loop, twice, regime, active_name) = shape;
+            MacroCase { prefix, params, brace_delim, repl, args, tail, gdef, wrap_split, wrap_kind, main_loop, twice, regime, active_name }
         })
+        .boxed()
 }
 
-fn oracle(ctx: &Ctx, c: &MacroCase, case: &mut Case) -> Verdict {
+fn map_atrees(v: &mut [ATree], f: &impl Fn(Tok) -> Tok) {
+    for t in v {
+        match t {
+            ATree::T(t) => *t = f(*t),
+            ATree::G(inner) => map_atrees(inner, f),
+        }
+    }
+}
+
+fn map_rtoks(v: &mut [RTok], f: &impl Fn(Tok) -> Tok) {
+    for t in v {
+        match t {
+            RTok::T(t) => *t = f(*t),
+            RTok::G(inner) => map_rtoks(inner, f),
+            _ => {}
+        }
+    }
+}
+
+/// Narrow alphabet: every token of the case is one of (at most) three tokens, delimiters are up to 7 tokens
+/// long; near-misses and self-overlapping delimiters are the rule, inside and outside groups.
+fn narrow_case_strategy() -> BoxedStrategy<MacroCase> {
+    let triple = prop_oneof![
+        3 => Just([Tok::L('a'), Tok::L('b'), Tok::O('.')]),
+        3 => Just([Tok::L('a'), Tok::L('b'), Tok::L('b')]),
+        2 => Just([Tok::L('a'), Tok::Sp, Tok::L('b')]),
+        3 => (tok_strategy(), tok_strategy(), tok_strategy()).prop_map(|(x, y, z)| [x, y, z]),
+    ];
+    (case_with(narrow_tok_strategy(), true), triple)
+        .prop_map(|(mut c, tr)| {
+            let f = move |t: Tok| match PH.iter().position(|p| *p == t) {
+                Some(i) => tr[i],
+                None => t,
+            };
+            for t in c.prefix.iter_mut() {
+                *t = f(*t);
+            }
+            for d in c.params.iter_mut().flatten() {
+                for t in d.iter_mut() {
+                    *t = f(*t);
+                }
+            }
+            map_rtoks(&mut c.repl, &f);
+            for a in c.args.iter_mut() {
+                map_atrees(a, &f);
+            }
+            map_atrees(&mut c.tail, &f);
+            c
+        })
+        .boxed()
+}
+
+pub fn case_strategy() -> impl Strategy<Value = MacroCase> {
+    prop_oneof![
+        7 => case_with(tok_strategy(), false),
+        3 => narrow_case_strategy(),
+    ]
+}
+
+fn expect_out(tokens: &[Tok], reps: usize) -> Vec<OutTok> {
+    let one: Vec<OutTok> = tokens.iter().map(to_out).collect();
+    let mut out = vec![];
+    for _ in 0..reps {
+        out.extend(one.iter().cloned());
+    }
+    out
+}
+
+fn oracle(c: &MacroCase, case: &mut Case) -> Verdict {
     let b = build(c);
     case.note = Some(b.text.clone());
-    let model = macro_call(&b, Deviations::default());
+    let model = macro_call(&b);
     let r = texvm::run_program(&VmOptions::default(), &b.text);
     match model {
         Err(e) => {
@@ -513,26 +821,10 @@ fn oracle(ctx: &Ctx, c: &MacroCase, case: &mut Case) -> Verdict {
         }
         Ok(m) => {
             let nontrivial = (m.arg_has_group_delimited) || c.brace_delim || m.partial_delim_in_arg;
-            case.class_if(m.arg_has_group_delimited, "delimited arg with group");
-            case.class_if(m.multi_group_delimited, "delimited arg with >=2 units incl. a group");
-            case.class_if(m.stripped, "braces stripped");
-            case.class_if(c.brace_delim, "#{");
-            case.class_if(m.partial_delim_in_arg, "partial delimiter in arg");
-            case.class_if(b.params.len() >= 4, "params>=4");
-            case.class_if(c.wrap_split.is_some(), "call issued from a forwarding macro");
-            case.class_if(b.stream.windows(2).any(|w| w[0] == Tok::Sp && w[1] == Tok::Sp), "adjacent space tokens in the stream");
-            let expected: Vec<OutTok> = m.tokens.iter().map(to_out).collect();
+            classify(c, &b, &m, case);
+            let expected = expect_out(&m.tokens, if c.twice { 2 } else { 1 });
             if r.error.is_none() && r.out == expected {
                 return Verdict::pass(nontrivial);
-            }
-            if ctx.known("flag:strip_when_first_and_last_are_braces") {
-                if let Ok(m2) = macro_call(&b, Deviations { strip_when_first_and_last_are_braces: true }) {
-                    let e2: Vec<OutTok> = m2.tokens.iter().map(to_out).collect();
-                    // unbalanced result may also surface as an error later; only exact reproduction counts
-                    if r.error.is_none() && r.out == e2 {
-                        return Verdict::Known("flag:strip_when_first_and_last_are_braces".into());
-                    }
-                }
             }
             Verdict::Fail(format!(
                 "macro expansion differs from TeX's macro_call\nprogram:  {}\nexpected: {}\ngot:      {}{}",
@@ -548,10 +840,269 @@ fn oracle(ctx: &Ctx, c: &MacroCase, case: &mut Case) -> Verdict {
     }
 }
 
+fn classify(c: &MacroCase, b: &Built, m: &ModelOut, case: &mut Case) {
+    case.class_if(m.arg_has_group_delimited, "delimited arg with group");
+    case.class_if(m.multi_group_delimited, "delimited arg with >=2 units incl. a group");
+    case.class_if(m.stripped, "braces stripped");
+    case.class_if(c.brace_delim, "#{");
+    case.class_if(m.partial_delim_in_arg, "partial delimiter in arg");
+    case.class_if(b.params.len() >= 4, "params>=4");
+    case.class_if(c.wrap_split.is_some(), "call issued from a forwarding macro");
+    case.class_if(b.stream.windows(2).any(|w| w[0] == Tok::Sp && w[1] == Tok::Sp), "adjacent space tokens in the stream");
+    // call shapes
+    case.class_if(c.main_loop, "call dispatched by the main loop");
+    case.class_if(!c.main_loop, "call dispatched by \\expandafter");
+    case.class_if(c.twice, "second call in the same VM");
+    case.class_if(c.active_name, "macro is an active character");
+    if let Some(n) = b.stack_len {
+        let spans = n > 0 && m.consumed > n;
+        case.class_if(spans, "arguments span stack and source text");
+        let sp_junction = n > 0 && n < b.stream.len() && b.stream[n - 1] == Tok::Sp && b.stream[n] == Tok::Sp;
+        case.class_if(spans && sp_junction, "stack space followed by lexed space inside the call");
+        case.class_if(n > 0 && m.consumed <= n, "call ends on the stack, tail is source text");
+    }
+    if c.wrap_split.is_some() && c.wrap_kind == 2 {
+        case.class("two catcode regimes for `,`");
+        let used = &b.stream[..m.consumed];
+        let both = used.contains(&Tok::L(',')) && used.contains(&Tok::O(','));
+        case.class_if(both, "call consumes both a letter `,` and an other `,`");
+        let delim_comma = b.prefix.iter().chain(b.params.iter().flatten().flatten()).any(|t| matches!(t, Tok::L(',') | Tok::O(',')));
+        case.class_if(both && delim_comma, "`,` of both categories consumed and `,` in prefix/delimiter");
+    }
+    // definition shapes
+    case.class_if(b.digit_after_hash, "digit adjacent to #n / ## in the definition");
+    case.class_if(b.prefix.iter().chain(b.params.iter().flatten().flatten()).any(is_digit), "digit in prefix or delimiter");
+    case.class_if(c.gdef, "\\gdef");
+    case.class_if(b.repl.iter().any(|r| matches!(r, FlatRPub::T(Tok::Hash))), "## in the replacement text");
+    case.class_if(b.params.len() == 9, "9 parameters");
+    case.class_if(b.repl.iter().any(|r| matches!(r, FlatRPub::P(8))), "#9 used");
+    let mut uses = vec![0usize; b.params.len()];
+    for r in &b.repl {
+        if let FlatRPub::P(i) = r {
+            uses[*i] += 1;
+        }
+    }
+    case.class_if(uses.iter().any(|u| *u == 0), "a parameter used 0 times");
+    case.class_if(uses.iter().any(|u| *u >= 2), "a parameter used >=2 times");
+    if c.brace_delim {
+        let raw_last = c.params.iter().take(9).last().map(|p| p.as_ref().map(|d| !clean_delim(d).is_empty()).unwrap_or(false));
+        case.class(match raw_last {
+            None => "#{ without parameters",
+            Some(false) => "#{ after an undelimited parameter",
+            Some(true) => "#{ after a delimited parameter",
+        });
+    }
+    let delims = || b.params.iter().flatten();
+    case.class_if(delims().any(|d| d.len() >= 4), "delimiter >= 4 tokens");
+    case.class_if(delims().any(|d| border(d) >= 1), "self-overlapping delimiter");
+    case.class_if(delims().any(|d| border(d) >= 2), "delimiter with border >= 2");
+    case.class_if(m.long_partial, "rejected partial match of >=2 delimiter tokens");
+    case.class_if(m.delim_inside_group, "whole delimiter inside a group of its argument");
+    let other_kinds = |t: &Tok| matches!(t, Tok::C(..) | Tok::Active(_));
+    case.class_if(b.prefix.iter().chain(b.params.iter().flatten().flatten()).any(other_kinds), "active / cat 3,4,8 character in prefix or delimiter");
+    // argument shapes
+    case.class_if(m.empty_delimited, "empty argument for a delimited parameter");
+    case.class_if(m.space_skipped_undelimited, "space skipped before an undelimited argument");
+    case.class_if(m.args.iter().any(|a| max_depth(a) >= 2), "argument with group nesting >= 2");
+    case.class_if(m.args.iter().any(|a| a.contains(&Tok::Hash)), "# (cat 6) inside an argument");
+    case.class_if(m.args.iter().any(|a| a.iter().any(other_kinds)), "active / cat 3,4,8 character inside an argument");
+}
+
+// ------------------------------------------------------------------------------------------------------
+// Fixed vectors
+
+#[derive(Clone, Debug, Serialize, Deserialize)]
+pub struct Vector {
+    pub name: String,
+    /// parameter text in source notation (`#` at the end = `#{`)
+    pub ptext: String,
+    pub repl: String,
+    pub stream: String,
+    /// the tokens TeX has in its input after expanding the call, in source notation (`#` = one cat-6 token)
+    pub expected: String,
+    pub main_loop: bool,
+}
+
+/// One character = one token, except `\c` (control symbol). No lexer state is modelled: the vectors contain
+/// no adjacent blanks and no control words, so the notation is unambiguous.
+fn mini_lex(s: &str) -> Vec<Tok> {
+    let mut out = vec![];
+    let mut it = s.chars();
+    while let Some(c) = it.next() {
+        out.push(match c {
+            '\\' => Tok::Cs(it.next().expect("control symbol")),
+            '{' => Tok::Open,
+            '}' => Tok::Close,
+            ' ' => Tok::Sp,
+            '#' => Tok::Hash,
+            '$' => Tok::C('$', 3),
+            '&' => Tok::C('&', 4),
+            '_' => Tok::C('_', 8),
+            '~' => Tok::Active('~'),
+            c if c.is_ascii_alphabetic() => Tok::L(c),
+            c => Tok::O(c),
+        });
+    }
+    out
+}
+
+fn build_vector(v: &Vector) -> Built {
+    // parameter text
+    let pt = mini_lex(&v.ptext);
+    let mut prefix = vec![];
+    let mut params: Vec<Option<Vec<Tok>>> = vec![];
+    let mut brace_delim = false;
+    let mut i = 0;
+    while i < pt.len() {
+        if pt[i] == Tok::Hash {
+            if i + 1 == pt.len() {
+                brace_delim = true;
+            } else {
+                assert!(pt[i + 1] == Tok::O(char::from_digit(params.len() as u32 + 1, 10).unwrap()), "vector {}: parameters must be numbered consecutively", v.name);
+                params.push(None);
+                i += 1;
+            }
+        } else {
+            match params.last_mut() {
+                None => prefix.push(pt[i]),
+                Some(p) => p.get_or_insert_with(Vec::new).push(pt[i]),
+            }
+        }
+        i += 1;
+    }
+    // replacement text
+    let rt = mini_lex(&v.repl);
+    let mut repl = vec![];
+    let mut i = 0;
+    while i < rt.len() {
+        if rt[i] == Tok::Hash {
+            match rt[i + 1] {
+                Tok::Hash => repl.push(FlatRPub::T(Tok::Hash)),
+                Tok::O(d) => repl.push(FlatRPub::P(d.to_digit(10).unwrap() as usize - 1)),
+                _ => panic!("vector {}: bad replacement text", v.name),
+            }
+            i += 1;
+        } else {
+            repl.push(FlatRPub::T(rt[i]));
+        }
+        i += 1;
+    }
+    let stream = mini_lex(&v.stream);
+    let mut text = String::new();
+    if v.main_loop {
+        text.push_str("\\let\\+\\vpcapture");
+    }
+    let (eff_prefix, eff_params, digit_after_hash) =
+        definition("\\*", false, &prefix, &params, brace_delim, &repl, if v.main_loop { "\\+" } else { "" }, &mut text);
+    text.push_str(if v.main_loop { "\\*" } else { "\\expandafter\\vpcapture\\*" });
+    render_toks(&stream, false, &mut text);
+    text.push_str("\\vpstop%");
+    Built { text, prefix: eff_prefix, params: eff_params, repl, stream, stack_len: None, digit_after_hash }
+}
+
+/// (name, parameter text, replacement text, tokens after the call, expected). Control words of the sources
+/// are replaced by control symbols (`\Look`→`\!`, `\x`/`\par`/`\hbox`/`\b`→`\;`), which changes no rule of
+/// macro_call; a blank that the source has after a control word is therefore left out.
+const VECTORS: &[(&str, &str, &str, &str, &str)] = &[
+    // The TeXbook p.203: \def\cs AB#1#2C$#3\$ {#3{ab#1}#1 c##\x #2} on \cs AB {\Look}C${And\$ }{look}\$ 5
+    ("texbook p203 cs", "AB#1#2C$#3\\$ ", "#3{ab#1}#1 c##\\;#2", "AB {\\!}C${And\\$ }{look}\\$ 5", "{And\\$ }{look}{ab\\!}\\! c#\\;5"),
+    // The TeXbook p.203: \def\cs #1. #2\par{...} on \cs You owe \$5.00. Pay it.\par
+    ("texbook p203 period-space", "#1. #2\\;", "[#1|#2]", "You owe \\$5.00. Pay it.\\;!", "[You owe \\$5.00|Pay it.]!"),
+    // The TeXbook p.204: \def\a#1#{\hbox to #1} on \a3pt{x}
+    ("texbook p204 #{", "#1#", "\\;to #1", "3pt{x}", "\\;to 3pt{x}"),
+    // exercise 20.3 (def.rs goldens)
+    ("texbook ex20.3a", "#1", "(#1_1,\\!,#1_n)", "{\\; x}", "(\\; x_1,\\!,\\; x_n)"),
+    ("texbook ex20.3b", "#1", "(#1_1,\\!,#1_n)", "{{\\; x}}", "({\\; x}_1,\\!,{\\; x}_n)"),
+    // exercise 20.5: \def\a#1{\def\b##1{##1#1}} on \a!
+    ("texbook ex20.5", "#1", "\\;##1{##1#1}", "!z", "\\;#1{#1!}z"),
+    // exercise 20.6 / def.rs parameter_brace_special_case
+    ("texbook ex20.6", "#", "\\;", "{Hello}", "\\;{Hello}"),
+    ("def.rs #{ alone", "#", "Mint says ", "{hello}", "Mint says {hello}"),
+    // def.rs goldens
+    ("def.rs prefix", "abc#1", "y#1z", "abcdefg", "ydzefg"),
+    ("def.rs prefix only", " fgh", "567", " fghi", "567i"),
+    ("def.rs xxx", "#1xxx", "y#1z", "abcxxx", "yabcz"),
+    ("def.rs xxx empty", "#1xxx", "y#1z", "xxx", "yz"),
+    ("def.rs xxx scope", "#1xxx", "#1", "abc{123xxx}xxx!", "abc{123xxx}!"),
+    ("def.rs two delimited", "a#1c#2e", "x#2y#1z", "abcdef", "xdybzf"),
+    ("def.rs grouped value", "#1c", "x#1y", "{Hello}c", "xHelloy"),
+    ("def.rs undelimited pair", "#1#2", "#2-#1", "{abc}{xyz}", "xyz-abc"),
+    ("def.rs spaces undelimited", "#1#2", "Hello-#1-#2-World", " A B C", "Hello-A-B-World C"),
+    ("def.rs three uses", "#1", "#1 #1 #1", "1", "1 1 1"),
+    // DESIGN A.2 / TeXbook p.203-204 rules (§392 shortest match, §393 brace stripping)
+    ("aab on aaab", "#1aab", "[#1]", "aaab!", "[a]!"),
+    ("aab empty", "#1aab", "[#1]", "aab!", "[]!"),
+    ("abab. overlapping, also inside a group", "#1abab.", "[#1]", "ab{abab.}ababab.!", "[ab{abab.}ab]!"),
+    ("two groups not stripped", "#1.", "[#1]", "{x}{y}.", "[{x}{y}]"),
+    ("space then group not stripped", "#1.", "[#1]", " {x}.", "[ {x}]"),
+    ("group then space not stripped", "#1.", "[#1]", "{x} .", "[{x} ]"),
+    ("token then group not stripped", "#1.", "[#1]", "x{y}.", "[x{y}]"),
+    ("empty group stripped", "#1.", "[#1]", "{}.", "[]"),
+    ("single group stripped once", "#1.", "[#1]", "{{x}}.", "[{x}]"),
+    ("delimiter inside group ignored", "#1.", "[#1]", "{a.b}c.d", "[{a.b}c]d"),
+    ("undelimited skips spaces, strips group", "#1#2", "[#1|#2]", " x {y}z", "[x|y]z"),
+    ("delimited keeps leading space", "#1#2.", "[#1|#2]", "x y.", "[x| y]"),
+    ("#{ after delimiter", "#1.#", "[#1]", "a.b.{x}", "[a.b]{x}"),
+    ("#{ after undelimited: first brace ends it", "#1#", "[#1]", " {x}", "[ ]{x}"),
+    // §476 / §479: digits next to # and ##
+    ("##1 and #12", "#1#2", "[#1|#2##1#12]", "xy", "[x|y#1x2]"),
+    ("#11: delimiter is a digit", "#11#2", "[#1|#2]", "ab1{c}", "[ab|c]"),
+    ("digit prefix", "12#1", "[#1]", "123", "[3]"),
+];
+
+fn vector_oracle(v: &Vector, case: &mut Case) -> Verdict {
+    let b = build_vector(v);
+    case.note = Some(b.text.clone());
+    let expected = expect_out(&mini_lex(&v.expected), 1);
+    case.class_if(v.main_loop, "call dispatched by the main loop");
+    let model = match macro_call(&b) {
+        Ok(m) => expect_out(&m.tokens, 1),
+        Err(e) => return Verdict::Fail(format!("vector `{}`: the reference model rejects the call ({:?})\nprogram: {}", v.name, e, b.text)),
+    };
+    if model != expected {
+        return Verdict::Fail(format!(
+            "vector `{}`: the REFERENCE MODEL disagrees with the documented result (the model is wrong)\nprogram:  {}\nexpected: {}\nmodel:    {}",
+            v.name,
+            b.text,
+            texvm::render(&expected),
+            texvm::render(&model)
+        ));
+    }
+    let r = texvm::run_program(&VmOptions::default(), &b.text);
+    if r.error.is_none() && r.out == expected {
+        return Verdict::pass(true);
+    }
+    Verdict::Fail(format!(
+        "vector `{}`: macro expansion differs from the documented result\nprogram:  {}\nexpected: {}\ngot:      {}{}",
+        v.name,
+        b.text,
+        texvm::render(&expected),
+        texvm::render(&r.out),
+        match &r.error {
+            Some(e) => format!("\nerror:    {}", e),
+            None => String::new(),
+        }
+    ))
+}
+
 pub fn run(ctx: &Ctx) {
-    ctx.rule("cases = (parameter text: prefix x up to 9 parameters each undelimited or delimited by 1-3 tokens x optional #{) x replacement text over literals, #n, ##, groups x argument tuple (empty, token, group, several groups, nested, leading space, random trees) x tail; rendered as a one-line program `\\def\\*..{..}\\expandafter\\vpcapture\\*<stream>\\vpstop` and the captured unexpanded tokens compared with a transcription of TeX's macro_call; non-trivial = a delimited parameter binds an argument containing a group, or #{ is used, or the delimiter's first token occurs inside the argument; distinct by program text");
-    ctx.assume("calls on which TeX itself reports an error (no match, extra }) are outside the quantifier: skipped and counted");
-    ctx.assume("control symbols are used instead of control words so the rendered text provably re-lexes to the generated tokens");
+    ctx.rule("cases = (parameter text: prefix x up to 9 parameters each undelimited or delimited by 1-7 tokens x optional #{) x replacement text over literals, #n, ##, groups x argument tuple (empty, token, group, several groups, nested, leading space, random trees) x tail x call shape; alphabet = letters, others incl. digits, space, control symbols, active ~, cat 3/4/8 characters, cat-6 # in arguments; 30% of the cases use a narrow alphabet of <=3 tokens with delimiters of up to 7 tokens (self-overlapping delimiters, near-misses inside and outside groups). Call shapes: dispatched by \\expandafter (`\\def\\*..{..}\\expandafter\\vpcapture\\*<stream>\\vpstop`) or by the main loop (`\\def\\*..{\\+..}\\*<stream>\\vpstop`, \\+ = \\vpcapture); typed directly, forwarded through \\w#1#2 (all tokens from the expansion stack), through \\w#1 (first part from the stack, rest unread source text), or through \\u/\\v with `,` lexed as letter in one part and as other character in the other; optionally called twice in the same VM; in 10% of the cases the macro is the active character ~ instead of \\*. The captured unexpanded tokens are compared with a transcription of TeX's macro_call; non-trivial = a delimited parameter binds an argument containing a group, or #{ is used, or the delimiter's first token occurs inside the argument; distinct by program text. Sub-check texbook: fixed TeXbook/def.rs vectors that both the model and the VM must reproduce");
+    ctx.assume("calls on which TeX itself reports an error (prefix mismatch, no match, extra }, argument missing at the end of the generated stream) are outside the quantifier: skipped and counted; a panic on them is still a violation");
+    ctx.assume("control symbols are used instead of control words so the rendered text provably re-lexes to the generated tokens; `^` is not generated because `^^` is lexer notation");
+    let vectors: Vec<Vector> = VECTORS
+        .iter()
+        .flat_map(|(name, ptext, repl, stream, expected)| {
+            [false, true].into_iter().map(move |main_loop| Vector {
+                name: name.to_string(),
+                ptext: ptext.to_string(),
+                repl: repl.to_string(),
+                stream: stream.to_string(),
+                expected: expected.to_string(),
+                main_loop,
+            })
+        })
+        .collect();
+    run_list(ctx, "texbook", vectors, vector_oracle);
     let n = ctx.tier.pick(150_000u64, 3_000_000u64);
-    run_generated(ctx, "macro_call", n, case_strategy, |c: &MacroCase, case| oracle(ctx, c, case));
+    run_generated(ctx, "macro_call", n, case_strategy, oracle);
 }
